@@ -34,6 +34,10 @@ k `pending` includes `data` (a torn write).  After the crash every intercepted c
 those made by `except BaseException:` cleanup handlers and `with` exits — raises `Crash` without
 touching the disk, which is what distinguishes a process crash from an exception.
 
+Besides the crash there are two one-shot fault modes for a process that SURVIVES (`arm(k, partial,
+raises=...)`): "interrupt" (KeyboardInterrupt delivered at call k) and "oserror" (the call fails
+with OSError); the call is not executed (a torn write keeps its prefix), later calls work normally.
+
 Not modelled: power loss (reordering of unsynced data/metadata), directory-entry durability.
 """
 import builtins
@@ -229,10 +233,19 @@ class FaultFS:
         self._saved = []
         self._active = False
         self.escapes = []
+        self.raises = None
+        self.fired = False
 
-    def arm(self, k, partial=0):
+    def arm(self, k, partial=0, raises=None):
+        """Fault at call index k.  raises=None: the process crashes (sticky, see module docstring).
+        raises=<callable returning an exception>: ONE-SHOT fault in a SURVIVING process — call k is
+        not executed (a write first accepts its `partial`-byte prefix into the file/buffer, a torn
+        write) and raises that exception, e.g. KeyboardInterrupt ("interrupt" mode) or
+        OSError(EIO) ("oserror" mode); afterwards everything works normally.  `fs.fired` tells
+        whether the fault was delivered."""
         self.crash_at = k
         self.partial = partial or 0
+        self.raises = raises
         return self
 
     # ---- path filter -------------------------------------------------------------------------
@@ -278,8 +291,19 @@ class FaultFS:
         self.log.append((k, kind, detail, pend))
         if self.on_call is not None:
             self.on_call(k, kind, detail, data)
+        if self.crash_at == k and self.raises is not None:
+            self.crash_at = None
+            self.fired = True
+            self.crash_call = (k, kind, detail, self.partial)
+            if f is not None and data is not None and self.partial:
+                if f._buffered:
+                    f._pending.append(data[:self.partial])
+                else:
+                    f._commit(data[:self.partial])
+            raise self.raises()
         if self.crash_at == k:
             self.crashed = True
+            self.fired = True
             self.crash_call = (k, kind, detail, self.partial)
             for g in list(self._open_files):
                 g._die(data if g is f else None, self.partial)
